@@ -175,6 +175,19 @@ def cut_points(prog, rep, ctx):
         else:
             rep.undecided("CUT", fi.short, "overlap test", f"the trimming site at line {loose[0].lineno} is reachable without an intersects() test", fi.loc(loose[0]))
     if lp.body:
+        # list two's index moves on without anything of the current list-two event having been emitted: only where the event is
+        # known to overlap the list-one event (then "no remainder" means list one covers it)
+        adv2 = [n for n in ast.walk(lp) if isinstance(n, ast.AugAssign) and norm(n.target) == i2 and isinstance(n.op, ast.Add)]
+        pieces = {e2, f"{l2}[{i2}]"}
+        for a_ in ast.walk(lp):
+            if isinstance(a_, ast.Assign) and isinstance(a_.value, ast.Call) and norm(a_.value.func) == "_split_event" and a_.value.args and norm(a_.value.args[0]) in (e2, f"{l2}[{i2}]"):
+                for t_ in a_.targets:
+                    pieces |= {norm(x) for x in (t_.elts if isinstance(t_, ast.Tuple) else [t_])}
+        emit2 = {g.node_of(c) for c in ast.walk(lp) if isinstance(c, ast.Call) and norm(c.func) == f"{acc}.append" and len(c.args) == 1 and norm(c.args[0]) in pieces}
+        entry_ = g.node_of(lp.body[0])
+        silent = g.reach_filtered(entry_, lambda u, v, lab: v not in emit2 and u not in emit2 and not ((overlap_fact(lab) or (None, None))[0] == "overlap" and overlap_fact(lab)[1] is True)) | {entry_}
+        for a_ in adv2:
+            rep.check(g.node_of(a_) not in silent or g.node_of(a_) in emit2, "CUT", fi.short, f"`{norm(a_)}` at line {a_.lineno}", "list two advances only after emitting (a piece of) its event, or where the event overlaps list one", f"the index of list two is advanced (line {a_.lineno}) on a path that neither emitted anything of the current list-two event nor established that it overlaps the list-one event: a list-two event lying entirely after the list-one event (a gap between them) is dropped, so the result does not contain the uncovered parts of list two", fi.loc(a_))
         whole2 = [c for c in ast.walk(lp) if isinstance(c, ast.Call) and norm(c.func) == f"{acc}.append" and len(c.args) == 1 and norm(c.args[0]) in (e2, f"{l2}[{i2}]")]
         r_no = g.reach_filtered(g.node_of(lp.body[0]), lambda u, v, lab: not ((overlap_fact(lab) or (None, None))[0] == "overlap" and overlap_fact(lab)[1] is False))
         for c in whole2:
